@@ -102,10 +102,11 @@ MERGE_FEED = {"constant": ("Program::register_constant",), "builtin": ("Program:
               "type": ("environment::import_type",), "tuple": ("environment::import_type",)}
 
 
-def merge_remap_tables(mb, fln, fl0):
+def merge_remap_tables(mb, fln, fl0, reviewed_inlined=()):
     """{kind: local} — merge_bytecode's old->new tables, each identified by the call that feeds it: the HashMap<usize, usize> whose inserted values are
     results of register_constant / register_builtin_info / register_function, and the two handed to import_type (4th = types, 5th = tuples)."""
-    hm = [l["i"] for l in mb.locals if (l["ty"] or "").startswith("std::collections::hash::map::HashMap<usize, usize") and not l.get("inl")]
+    # locals of merge_bytecode itself or of a NEW helper it was split into (transparent) — not locals of the reviewed callee inlined for this rule
+    hm = [l["i"] for l in mb.locals if (l["ty"] or "").startswith("std::collections::hash::map::HashMap<usize, usize") and l.get("inl") not in set(reviewed_inlined)]
     out = {}
     for bi, t in mb.calls():
         c = t.get("callee") or ""
@@ -312,7 +313,7 @@ def r2_index_fields(ctx, rule_id="R-C07-2"):
     mbi = F.body_with(MB, {RF})
     fli = Flow(mbi, through_named=True)
     fl0i = Flow(mbi)
-    tables = merge_remap_tables(mbi, fli, fl0i)
+    tables = merge_remap_tables(mbi, fli, fl0i, reviewed_inlined={RF})
     missing = [k for k in ("constant", "function", "tuple", "type", "builtin") if k not in tables]
     if missing:
         raise CheckError("%s: the %s remap table(s) of merge_bytecode could not be identified by their feeding calls (anchor drifted)" % (R, missing))
